@@ -40,6 +40,7 @@ JudgeParse(r) ==
               ELSE IF ~want.ok THEN "ok-not-a-date-form"    \* nothing is demanded for other strings
               ELSE IF ~want.indom THEN "ok-outside-domain"
               ELSE IF beyond THEN "ok-na"                   \* the backend's type cannot hold the instant
+              ELSE IF r.st = "env" THEN "ok-env"            \* no time zone database for jiff's "GMT"/"UTC"
               ELSE IF r.st = "panic" THEN "parse-panic"
               ELSE IF r.st # "ok" THEN "parse-fail"
               ELSE IF r.day # want.day \/ r.sod # want.sod THEN "parse-instant"
